@@ -254,6 +254,15 @@ pub fn check_program(model: &mut Model, report: &mut Report, case: &LuauCase, co
     if !inside_hc {
         report.count("outside_census_hypothesis", 1);
     }
+    if case.check_behaviour && case.rule_name == "remove_compound_assignment" && fired {
+        // how much of what is generated lies inside the guard of the whole-rule theorem `compound_partial`
+        // (decidable form `Compound.gB`, evaluated by the Lean driver); programs outside it are still judged
+        if model.ask(&format!("c06.guard {}", sexp0)) == "true" {
+            report.count("compound_partial_guard_holds", 1);
+        } else {
+            report.count("compound_partial_guard_fails", 1);
+        }
+    }
 
     // ---- the trees the theorems quantify over: every parsed program must be well-formed
     if model.ask(&format!("c06.wf {}", sexp0)) != "true" {
